@@ -105,6 +105,7 @@ PENDING = set()   # harness exists, theorems in progress: not claimed until they
 
 # properties whose theorems are also stated and proved for Lean definitions regenerated from the Python source
 TRANSLATED = {
+ 'C01': 'the step-expression evaluator _process_step_expression (attackgraph.py)',
  'C08': 'analyzers/apriori.py (propagation, evaluation, outer loop)',
  'C09': 'attackgraph.py (lookups, add_node, remove_node, add_attacker, remove_attacker), attacker.py',
  'C11': 'attacker.py and node.py (compromise, undo_compromise, is_compromised_by)',
